@@ -218,25 +218,25 @@ theorem start_makes_new_session (st : State) (r : Req) (hst : isStart r.typ = tr
 /-- **The model's tables are the handler's.** Regenerated on every run from http/handler.go,
 server.go (go/ast) and protocol.Of (executed): the message types that start a protocol, the
 response types that end a session, the error branch that invalidates the token, the window of
-encrypted TO2 requests, the request → response dispatch of the four `Respond` methods and the
-protocol of each request type are exactly what `isStart`, `final`, `decrypts`' use in `handle`,
+encrypted TO2 requests, the request → response dispatch of the four `Respond` methods (the twelve
+request types of `handle_request_type`, each answered by its type + 1 as in `handle_resp`) and
+the protocol of every message type are exactly what `isStart`, `final`, `decrypts`' use in `handle`,
 `handle_resp` and `protoOf` say. A change of any of these in the source changes the generated
 file and breaks this theorem. -/
 theorem model_tables_are_the_handlers :
     ((List.range 256).all fun t => isStart t == Fdo.Gen.Handler.startTypes.contains t) = true ∧
     ((List.range 256).all fun t => final t == Fdo.Gen.Handler.finalResponses.contains t) = true ∧
     Fdo.Gen.Handler.errorInvalidates = true ∧
-    ((List.range 256).all fun t => !(protoOf t == some Proto.to2) ||
+    ((Fdo.Gen.Handler.respondTable.map (·.2.1)).all fun t =>
       ((decide (Fdo.Gen.Handler.decryptAbove < t) && decide (t < Fdo.Gen.Handler.decryptBelow)) == (t == 66 || t == 68 || t == 70))) = true ∧
     (Fdo.Gen.Handler.respondTable.map fun r => (r.2.1, r.2.2.1)) =
       [(10, 11), (12, 13), (20, 21), (22, 23), (30, 31), (32, 33), (60, 61), (62, 63), (64, 65), (66, 67), (68, 69), (70, 71)] ∧
-    ((List.range 256).all fun t => (protoOf t).isSome == (Fdo.Gen.Handler.respondTable.map (·.2.1)).contains t) = true ∧
     ((List.range 256).all fun t => match protoOf t with
       | some .di => Fdo.Gen.Proto.protocolOf[t]? == some 1
       | some .to0 => Fdo.Gen.Proto.protocolOf[t]? == some 2
       | some .to1 => Fdo.Gen.Proto.protocolOf[t]? == some 3
       | some .to2 => Fdo.Gen.Proto.protocolOf[t]? == some 4
-      | none => true) = true := by
+      | none => (Fdo.Gen.Proto.protocolOf[t]? == some 0 || Fdo.Gen.Proto.protocolOf[t]? == some 5)) = true := by
   decide +kernel
 
 /-! Non-vacuity: a history in which every effect occurs, and the known weak point (Done accepted
